@@ -40,7 +40,7 @@ var optPool = [][]string{
 	{"--wrap"}, {"--gap"}, {"--gap=2"}, {"--no-scrollbar"}, {"--scrollbar=|x"}, {"--pointer=>>"}, {"--marker=**"}, {"--pointer="}, {"--no-unicode"},
 	{"--multi"}, {"--multi=2"}, {"--cycle"}, {"--no-input"}, {"--no-mouse"}, {"--keep-right"}, {"--hscroll-off=1"}, {"--tabstop=1"}, {"--ellipsis=…"}, {"--highlight-line"},
 	{"--preview=echo {}; cat {f} >/dev/null", "--preview-window=right,50%"}, {"--preview=cat {f}; exec sleep 30.5", "--preview-window=up,3"}, {"--preview=echo {q} {+}", "--preview-window=down,40%,wrap,border-top"},
-	{"--preview=printf 'a\\nb\\nc\\n'", "--preview-window=left,20,border-none"}, {"--preview=echo x", "--preview-window=hidden"}, {"--preview=sleep 0.3; echo {n}", "--preview-window=right,1"},
+	{"--preview=printf 'a\\nb\\nc\\n'", "--preview-window=left,20,border-none"}, {"--preview=echo x", "--preview-window=hidden"}, {"--preview=sleep 0.3; echo {n}", "--preview-window=right,1"}, {"--preview=echo {}; sleep 40.5; echo end", "--preview-window=down,3"},
 	{"--prompt=プロンプト> "}, {"--ghost=type here"}, {"--track"}, {"--tac"}, {"--no-sort"}, {"--scheme=path"}, {"--ansi"}, {"--read0"}, {"--multi-line"}, {"--tail=5"}, {"--sync"},
 	{"--bind=space:execute-silent(sleep 0.2)"}, {"--bind=f1:reload(sleep 0.4; seq 7)"}, {"--bind=start:reload(sleep 0.3; seq 20)"}, {"--bind=load:first"}, {"--bind=focus:transform-header(echo {n})"}, {"--bind=resize:refresh-preview"},
 	{"--bind=ctrl-t:execute(true)"}, {"--bind=change:reload(sleep 0.2; echo {q}; cat {f})"}, {"--info-command=echo $FZF_POS/$FZF_TOTAL_COUNT"},
@@ -249,7 +249,7 @@ func sessionC14(r *vk.Run, rng *rand.Rand, idx int) {
 		ending = []string{"enter", "esc", "ctrl-c", "abort", "sigterm", "sigint", "become", "accept-post"}[rng.Intn(8)]
 		// optionally start a command right before leaving, so that the exit overlaps with it
 		if rng.Intn(3) == 0 {
-			s.Post([]string{"execute-silent(sleep 0.5)", "reload(sleep 1.5; seq 3)", "refresh-preview", "change-preview(cat {f}; exec sleep 20.5)+refresh-preview"}[rng.Intn(4)])
+			s.Post([]string{"execute-silent(sleep 0.5)", "reload(sleep 1.5; seq 3)", "reload(sleep 30.7; seq 3)", "reload(sleep 30.7 | cat)", "refresh-preview", "change-preview(cat {f}; exec sleep 20.5)+refresh-preview", "change-preview(cat {f}; sleep 20.7; echo end)+refresh-preview"}[rng.Intn(7)])
 			situation = "command-running"
 			hist = append(hist, "POST <command before exit>")
 		}
